@@ -334,6 +334,63 @@ theorem stream_tag_flip_rejected (c : StreamCfg) (hm : c.mac.isSome) (st : St) (
             rw [htag]; exact beq_false_of_ne (fun h => hne h.symm)
           simp [hnone, this]
 
+
+/-- chacha20-poly1305: the same for the Poly1305 tag — an accepted input `A ‖ T ‖ tl` (A = encrypted length and
+    body, T = the 16 tag bytes) with T replaced by any other 16 bytes is answered with a MAC failure -/
+theorem cha_tag_flip_rejected (c : ChaCfg) (st : St) (seq : UInt32) (A T T' tl p : Bytes)
+    (hA4 : 4 ≤ A.length)
+    (hA : A.length = 4 + (be32 (xorBytes (A.take 4) (c.ks c.lengthKey (chaNonce seq) 0 4))).toNat)
+    (hT : T.length = 16) (hT' : T'.length = 16) (hne : T' ≠ T)
+    (hacc : (chaRead c st seq (A ++ T ++ tl)).res = .ok p) :
+    (chaRead c st seq (A ++ T' ++ tl)).res = .error .mac := by
+  have htk : ∀ X : Bytes, (A ++ X ++ tl).take 4 = A.take 4 := by
+    intro X; rw [List.append_assoc, List.take_append_of_le_length hA4]
+  have hdr : ∀ X : Bytes, (A ++ X ++ tl).drop 4 = A.drop 4 ++ (X ++ tl) := by
+    intro X; rw [List.append_assoc, List.drop_append_of_le_length hA4]
+  obtain ⟨len, hlen⟩ : ∃ l, (be32 (xorBytes (A.take 4) (c.ks c.lengthKey (chaNonce seq) 0 4))).toNat = l := ⟨_, rfl⟩
+  rw [hlen] at hA
+  have hbody : ∀ X : Bytes, (A.drop 4 ++ (X ++ tl)).take len = A.drop 4 := fun X => List.take_left' (by simp; omega)
+  have htag : ∀ X : Bytes, X.length = 16 → ((A.drop 4 ++ (X ++ tl)).drop len).take 16 = X := by
+    intro X hX
+    rw [List.drop_left' (by simp; omega)]; exact List.take_left' hX
+  have h4 : ∀ X : Bytes, ¬ (A ++ X ++ tl).length < 4 := by intro X; simp; omega
+  have hneed : ∀ X : Bytes, X.length = 16 → ¬ (A.drop 4 ++ (X ++ tl)).length < len + 16 := by
+    intro X hX; simp [hX]; omega
+  unfold chaRead at hacc ⊢
+  simp only [h4, if_false, htk, hdr, hlen, hbody, hneed T hT, hneed T' hT', htag T hT, htag T' hT'] at hacc ⊢
+  split at hacc
+  · simp at hacc
+  · split at hacc
+    · simp at hacc
+    · rename_i hc hmac
+      simp only [hc, if_false]
+      have heq : c.poly (c.ks c.contentKey (chaNonce seq) 0 32) (A.take 4 ++ A.drop 4) = T := by
+        simpa using hmac
+      have : (c.poly (c.ks c.contentKey (chaNonce seq) 0 32) (A.take 4 ++ A.drop 4) == T') = false := by
+        rw [heq]; exact beq_false_of_ne (fun h => hne h.symm)
+      simp only [this, Bool.not_false, if_true]
+
+/-! ## non-vacuity: concrete streams through the `none` reader and a toy authenticated mode -/
+
+def noneCfg : StreamCfg := ⟨fun _ => 0, none, 0, false⟩
+def toyMac : StreamCfg := ⟨fun i => UInt8.ofNat (7 * i + 3), some (fun x => [UInt8.ofNat x.length, 0x5a]), 2, false⟩
+
+/-- the `none` reader: a well-formed packet is accepted; padding_length 255 with a small packet_length, a
+    packet_length above maxPacket, and a truncated packet are rejected — never a panic outcome -/
+example :
+    (streamRead noneCfg ⟨0, []⟩ 0 [0, 0, 0, 12, 10, 65, 1, 2, 3, 4, 5, 6, 7, 8, 9, 10]).res = .ok [65] ∧
+    (streamRead noneCfg ⟨0, []⟩ 0 [0, 0, 0, 12, 255, 65, 1, 2, 3, 4, 5, 6, 7, 8, 9, 10]).res = .error .len ∧
+    (streamRead noneCfg ⟨0, []⟩ 0 [0, 4, 0, 1, 4, 65]).res = .error .len ∧
+    (streamRead noneCfg ⟨0, []⟩ 0 [0, 0, 0, 12, 10, 65, 1, 2]).res = .error .eof := by decide +kernel
+
+/-- a written packet of the toy authenticated mode is accepted; the same bytes with the last tag byte changed
+    are a MAC failure (an instance of `stream_tag_flip_rejected`), at another sequence number too -/
+def toyWire : Bytes := ((streamWrite toyMac ⟨0, []⟩ 7 [1, 2, 3] (zeros 32)).toOption.map (·.1)).getD []
+
+example : (streamRead toyMac ⟨0, []⟩ 7 toyWire).res = .ok [1, 2, 3] ∧
+    (streamRead toyMac ⟨0, []⟩ 7 (toyWire.dropLast ++ [0])).res = .error .mac ∧
+    toyWire.length = 18 := by decide +kernel
+
 /-! ## the sequence number enters the MAC input / nonce injectively -/
 
 theorem u32be_injective (a b : UInt32) (h : u32be a = u32be b) : a = b := by
